@@ -131,6 +131,16 @@ impl ClientTask {
         local_endpoint: Option<SocketAddr>,
         hostname: Option<&str>,
     ) -> Option<PhysLayer> {
+        #[cfg(dnp3_verif)]
+        if crate::verif::hooks::network_installed() {
+            self.connect_handler.connecting(addr, hostname);
+            let phys = crate::verif::hooks::sim_connect(addr, timeout).await;
+            if phys.is_none() {
+                self.connect_handler.connect_failed(addr, hostname);
+            }
+            return phys;
+        }
+
         let result = if addr.is_ipv4() {
             TcpSocket::new_v4()
         } else {
